@@ -205,6 +205,21 @@ static int world_up(int block_mode) {
   return ok && W.srv && W.cli && W.ep && W.cs;
 }
 
+/* release what exists but keep the library started (used to retry a failed set-up) */
+static void world_release(void) {
+  if (W.cs) {
+    vn_unregister_client(W.cs);
+    coap_session_release(W.cs);
+    W.cs = NULL;
+  }
+  if (W.cli) coap_free_context(W.cli);
+  if (W.srv) coap_free_context(W.srv);
+  W.cli = W.srv = NULL;
+  W.ep = NULL;
+  W.r_small = W.r_big = W.r_up = W.r_obs = NULL;
+  vn_nnodes = 0;
+}
+
 static void world_down(void) {
   if (W.cs) {
     vn_unregister_client(W.cs);
@@ -299,6 +314,17 @@ static void sc_setup(void) {
   vn_prng_seed(11);
   int ok = world_up(COAP_BLOCK_USE_LIBCOAP | COAP_BLOCK_SINGLE_BODY);
   R("up=%d", ok);
+  if (!ok) {
+    /* "the next operation with memory available succeeds": tear the partial world down
+     * (armed: tear-down is part of the scenario) and set it up again without faults */
+    world_release();
+    fa_armed = 0;
+    size_t keep = reslen;
+    int ok2 = world_up(COAP_BLOCK_USE_LIBCOAP | COAP_BLOCK_SINGLE_BODY);
+    reslen = keep;
+    R("retry=%d", ok2);
+    fa_armed = 1;
+  }
   finish_with_canary();
   world_down();
 }
